@@ -9,6 +9,19 @@ VERIF = Path(__file__).resolve().parent.parent
 
 # property -> (technique, level text, level note, design ref)
 CLAIMS: dict[str, tuple[str, str, str, str]] = {
+    'C18': (
+        'check-site inventory with data-dependence of check arguments over the validator package',
+        'Detection side only: for each corruption kind named by the property (wrong decode time, '
+        'wrong sequence number, trun offset outside mdat, wrong saio offset, missing moov/ftyp, '
+        'missing mandatory MPD attribute, SegmentTimeline gap, availabilityStartTime changed '
+        'across refresh) there must be a call of the ValidationChecks family - of a comparison or '
+        'presence kind as the row demands - whose arguments, expanded through local and self '
+        'definitions and enclosing tests, read every fact a detecting check needs, attached to '
+        'the element that owns the fact; the check family itself must route verdicts through '
+        'check_true -> add_error; counted loops must advance by a positive step.',
+        'Not decided: absence of false positives on server output (needs the server values), '
+        'sufficiency of each comparison, termination in general.',
+        'DESIGN.md section 4, C18'),
     'C19': (
         'interval/zone abstract interpretation of toIsoDuration + def-use lint + regex-AST check',
         'Decides, for every input at once, the structural clauses of C19: every number placed in a '
@@ -72,6 +85,20 @@ CLAIMS: dict[str, tuple[str, str, str, str]] = {
         '(restated); the field table (free text vs numeric vs vocabulary vs file-derived), where '
         'anything not listed and not annotated numeric is treated as free text.',
         'DESIGN.md section 4, C05'),
+    'C06': (
+        'linear normal forms of the byte-range convention + def-use chain of the declared duration + dominance of the range refusal',
+        'Only the conventions the static manifests and the media endpoints must share: '
+        'generateSegmentList computes the inclusive end as pos + size - 1 (linear normal form), '
+        'renders `start-end`, and an open range ends at length - 1 on the reader side; the '
+        'duration rendered as mediaPresentationDuration in every template is mpd.mediaDuration, '
+        'which ManifestContext.update_timing takes from the static timing context, which '
+        'DashTiming.calculate_vod_params computes from the timing reference and nothing else; on '
+        'every normal return of LiveMedia.calculate_media_segment_index the test '
+        '`first <= seg_num <= last` has been passed (must-fact path analysis) and the refusal is '
+        'the ValueError the caller maps to 404; the static first/last range is startNumber .. '
+        'startNumber + N - 1.',
+        'Not decided: counts, gaplessness, tiling of ranges, decode times - arithmetic on stored data.',
+        'DESIGN.md section 4, C06'),
     'C07': (
         'static option-registry reconstruction + parser/formatter summaries compared as inverse pairs',
         'The registry of DashOption objects is rebuilt from the source (all constructions, the error '
@@ -90,6 +117,21 @@ CLAIMS: dict[str, tuple[str, str, str, str]] = {
         'use (constant-collection none tests, join/split, quote/unquote); an unrecognised formatter '
         'is treated as custom and only its list/None obligations are checked.',
         'DESIGN.md section 4, C07'),
+    'C09': (
+        'template-AST comparison of patch and manifest + option-set agreement between the two endpoints',
+        'Only the clauses of C09 that are agreements between two pieces of source: the patch '
+        'template renders mpdId from the expression of MPD@id, each XPath selector addresses an '
+        'element/attribute the manifest template emits from the same expression, both render the '
+        'SegmentTimeline from the same included template, PatchLocation is emitted under '
+        'options.patch with the same expressions; the options ServePatch forces (patch, '
+        'segmentTimeline) are exactly the query names the PatchLocation URL omits and both '
+        'handlers parse options through the same restrictions/features; originalPublishTime is '
+        'fromtimestamp(publish) and the manifest sets publish=int(publishTime.timestamp()) with a '
+        'whole-second publishTime; every manifest advertising the patch feature also has '
+        'segmentTimeline, live mode and a patch template.',
+        'Not decided: that two manifests at T1 < T2 agree on shared segments, monotonic windows '
+        '(histories/arithmetic).',
+        'DESIGN.md section 4, C09'),
     'C10': (
         'mutation inventory with guard stacks + location-gating rule + single-implementation rule',
         'Every statement that can change the atom tree between load_fragment() and encode() in '
@@ -121,6 +163,18 @@ CLAIMS: dict[str, tuple[str, str, str, str]] = {
         'Not decided (cryptographic value equality, out of reach of static analysis): key-seed '
         'derivation equals Microsoft\'s algorithm, AES checksum values, PRO parse-back.',
         'DESIGN.md section 4, C11'),
+    'C12': (
+        'must-fact path analysis of the ownership test + exception coverage + return-nullability rule',
+        'Access and error discipline of the multi-period routes: in every verb method of a route '
+        'with <mps_name> and <int:ppk> the refusal `period is None or period.parent_pk != '
+        'current_mps.pk -> 404` dominates every use of the period; the beyond-the-end ValueError '
+        'exists and the caller maps ValueError to 404; no implementation of '
+        'calculate_media_segment_index returns an Optional parameter unchanged as the number the '
+        'caller asserts; VOD/live period starts are the running sum of durations with unique ids '
+        'per repetition.',
+        'Not decided: tiling of the time-shift window in live mode, source-offset mapping, decode '
+        'times (arithmetic).',
+        'DESIGN.md section 4, C12'),
     'C13': (
         'path-sensitive zone-domain abstract interpretation of get_http_range + call-site rules',
         'For every Range header value at once: on each exit path of get_http_range the zone '
